@@ -106,6 +106,9 @@ pub enum Act {
     TryUnwrap { reg: Dst },
     FinalizeAgain { reg: Dst },
     Collect,
+    /// collect_cycles() called from inside a `config(|c| ..)` closure (top level; elsewhere a plain collect_cycles()): the
+    /// collection itself must run as usual (what the crate cannot do there is adjust the threshold: not judged, section 5)
+    CollectInConfig,
     /// collect until a call runs no finalizer and no destructor; then the C02 oracle
     CollectQuiet,
     Register { own: Own, action: Box<ActionSpec>, dst: u8 },
@@ -146,6 +149,7 @@ impl Act {
             Act::TryUnwrap { .. } => "try_unwrap",
             Act::FinalizeAgain { .. } => "finalize_again",
             Act::Collect => "collect",
+            Act::CollectInConfig => "collect_in_config",
             Act::CollectQuiet => "collect_quiet",
             Act::Register { .. } => "register",
             Act::Clean { .. } => "clean",
